@@ -11,6 +11,7 @@ import PgsVerif.Model.AstNav
 import PgsVerif.Model.AstSem
 import PgsVerif.Model.AstSem2
 import PgsVerif.Model.Walk
+import PgsVerif.Model.Closure
 /-
   JSON glue: one `Engine` per correspondence.  Only decoding/encoding lives here; every function
   called is the very definition the theorems in `PgsVerif/Props` are about.
@@ -283,6 +284,16 @@ def engineC08 : Engine :=
   mkEngine (I := World) (O := C08Obs) c08Model domC08 judgeC08
 def engineC09 : Engine :=
   mkEngine (I := World) (O := C09Obs) c09Model (fun _ => true) judgeC09
+structure WorldQ where
+  w : World
+  qs : List (Ref × QKind)
+instance : FromJson WorldQ where
+  fromJson? j := do
+    let w : World ← fromJson? j
+    let qs : List (Ref × Nat) ← j.getObjValAs? (List (Ref × Nat)) "queries"
+    pure ⟨w, qs.map fun (r, k) => (r, match k with | 0 => QKind.dependencies | 1 => .dependents | _ => .enumDependents)⟩
+def engineC05 : Engine :=
+  mkEngine (I := WorldQ) (O := C05Obs) (fun i => c05Model i.w i.qs) (fun i => i.w.bidi) (fun i o => judgeC05 i.w i.qs o)
 structure WalkJ where
   start : Ref
   mode : String                       -- "rec", "pass" (PassThroughVisitor) or "nil" (NilVisitor)
@@ -310,6 +321,6 @@ def engineC07 : Engine :=
 end AST
 
 def engines : List (String × Engine) :=
-  [ ("c11", C11.engine), ("fp", FP.engine), ("c15", C15.engine), ("c19", C19.engine), ("c20", C20.engine), ("c18", C18.engine), ("c10", Persist.engineC10), ("c12", Persist.engineC12), ("c11p", Persist.engineC10), ("c13", C13.engine), ("c14", C14.engine), ("c01", AST.engineC01), ("c02", AST.engineC02), ("c03", AST.engineC03), ("c04", AST.engineC04), ("c08", AST.engineC08), ("c09", AST.engineC09), ("c07", AST.engineC07) ]
+  [ ("c11", C11.engine), ("fp", FP.engine), ("c15", C15.engine), ("c19", C19.engine), ("c20", C20.engine), ("c18", C18.engine), ("c10", Persist.engineC10), ("c12", Persist.engineC12), ("c11p", Persist.engineC10), ("c13", C13.engine), ("c14", C14.engine), ("c01", AST.engineC01), ("c02", AST.engineC02), ("c03", AST.engineC03), ("c04", AST.engineC04), ("c08", AST.engineC08), ("c09", AST.engineC09), ("c07", AST.engineC07), ("c05", AST.engineC05) ]
 
 end Pgs
